@@ -1,6 +1,7 @@
 package sim
 
 import (
+	"fmt"
 	"runtime/debug"
 	"testing"
 	"time"
@@ -8,9 +9,9 @@ import (
 
 func stack() string { return string(debug.Stack()) }
 
-var profiles = map[string]*Profile{
-	"base": {Name: "base"},
-}
+var profiles = map[string]*Profile{}
+
+func sprintf(f string, a ...any) string { return fmt.Sprintf(f, a...) }
 
 func (s *Sim) stepUpgrade(st Step) bool           { return false }
 func (s *Sim) stepMkBuiltin(st Step) bool         { return false }
